@@ -20,7 +20,10 @@ is the conversion of an SI sample to the requested unit (C05).
   `reports_iff` (an element reports a variable exactly when it is requested and the element
   records it — each independently of the others, repair D7), `no_unrequested_cell`;
 * export: one row per recorded instant and every recorded variable present (C17.lengths_inv),
-  each cell `cell sample f` (`export_cell`).
+  each cell `cell sample f` (`export_cell`); a column whose samples carry different units (`exportColumn`):
+  `exportColumn_length`, `exportColumn_cell` (each cell is its own sample's SI magnitude over the requested unit's
+  factor), `exportColumn_unit_invariant` (the units the samples are stored in do not matter),
+  `exportColumn_append` (a continuation in another unit appends its own converted samples).
 -/
 
 namespace Gearpy.C18
@@ -254,6 +257,37 @@ theorem no_unrequested_cell (e : ElemInfo) (req : List Var) (v : Var) (h : v ∉
 theorem sortOrder_matches : Gen.sortOrder = Var.all.map Var.name := by decide +kernel
 
 theorem all_sorted : (Var.all.map Var.rank) = [0, 1, 2, 3, 4, 5, 6, 7, 8, 9, 10] := by decide
+
+/-! ### export of a series whose samples carry different units -/
+
+theorem exportColumn_length (T : Tbl) (u : Nat) (qs : List Qty) : (exportColumn T u qs).length = qs.length := by
+  simp [exportColumn]
+
+/-- each exported cell is the SI magnitude of *its own* sample expressed in the requested unit -/
+theorem exportColumn_cell {T : Tbl} (g : T.Good) (u : Nat) (qs : List Qty) (j : Nat) (hj : j < qs.length) :
+    (exportColumn T u qs)[j]'(by simpa [exportColumn] using hj) = cell (siMag T qs[j]) (T.f qs[j].kind u) := by
+  simp only [exportColumn, List.getElem_map, cell]
+  exact conv_eq_div g _ _
+
+/-- the exported column depends on the physical values only: two histories of the same kinds with the same SI
+    magnitudes sample by sample — whatever units the samples are stored in — export identically -/
+theorem exportColumn_unit_invariant {T : Tbl} (g : T.Good) (u : Nat) (qs rs : List Qty)
+    (h : List.Forall₂ (fun a b => a.kind = b.kind ∧ siMag T a = siMag T b) qs rs) :
+    exportColumn T u qs = exportColumn T u rs := by
+  induction h with
+  | nil => rfl
+  | cons hab _ ih =>
+    simp only [exportColumn, List.map_cons, List.cons.injEq] at ih ⊢
+    refine ⟨?_, ih⟩
+    rw [conv_eq_div g, conv_eq_div g, hab.1, hab.2]
+
+/-- non-vacuity on the table generated from the source: 0.25 Nm followed by 0.125 kNm, exported in Nm -/
+example : exportColumn Gen.tbl 0 [⟨.torque, 1/4, 0⟩, ⟨.torque, 1/8, 5⟩] = [1/4, 125] := by decide +kernel
+
+/-- a continuation appends its own converted samples and leaves the earlier cells alone -/
+theorem exportColumn_append (T : Tbl) (u : Nat) (qs rs : List Qty) :
+    exportColumn T u (qs ++ rs) = exportColumn T u qs ++ exportColumn T u rs := by
+  simp [exportColumn]
 
 /-- an exported cell is the recorded SI sample expressed in the requested unit -/
 theorem export_cell (y f : Q) (hf : 0 < f) : cell y f * f = y := by
